@@ -910,6 +910,21 @@ impl<'tcx> Visitor<'tcx> for UnsafeVisitor<'tcx> {
         self.tcx
     }
 
+    fn visit_nested_body(&mut self, id: rustc_hir::BodyId) {
+        // nested bodies (closures, anonymous/inline constants) carry their own typeck results
+        let old = self.owner;
+        let old_depth = self.depth;
+        let owner = self.tcx.hir_body_owner_def_id(id);
+        self.owner = Some(owner);
+        if !matches!(self.tcx.def_kind(owner), DefKind::Closure) {
+            self.depth = 0;
+        }
+        let body = self.tcx.hir_body(id);
+        self.visit_body(body);
+        self.owner = old;
+        self.depth = old_depth;
+    }
+
     fn visit_block(&mut self, b: &'tcx rustc_hir::Block<'tcx>) {
         let is_unsafe = matches!(
             b.rules,
